@@ -16,7 +16,7 @@ import (
 
 	"verif/harness/internal/gen"
 	"verif/harness/internal/stack"
-	"verif/harness/internal/vt"
+	"verif/harness/vt"
 )
 
 // FaultScript: one read through the client of a response that a faulty
